@@ -310,10 +310,17 @@ class World:
                 if method == 'sendrawtransaction':
                     self.reply('"%s"' % ('12' * 32)); self.call(method, p.sendrawtransaction, libx.mk_tx(tx, op[3]))
                 else:
-                    self.reply('{"hex":"%s","complete":true,"fee":0.1,"changepos":0}' % E.hex())
+                    # the SERVED transaction differs from the one sent (the server signed / funded it), and signing may be partial
+                    served = dict(tx, vin=[(h_, n_, sc_ + b'\x51', q_) for h_, n_, sc_, q_ in tx['vin']])
+                    ES = W.enc_tx(served)
+                    complete = (len(E) + len(tx['vin'])) % 3 != 0
+                    self.reply('{"hex":"%s","complete":%s,"fee":0.1,"changepos":0%s}' % (
+                        ES.hex(), 'true' if complete else 'false', '' if complete else ',"errors":[{"txid":"%s","vout":0,"error":"missing key"}]' % ('ab' * 32)))
                     r = self.call(method, getattr(p, method), libx.mk_tx(tx, op[3]))
-                    if r['tx'].serialize() != E:
-                        raise Violation('object/%s-returned' % method, 'returned transaction differs from the served hex')
+                    if r['tx'].serialize() != ES:
+                        raise Violation('object/%s-returned' % method, 'returned transaction differs from the served hex (complete=%s)' % complete)
+                    if method != 'fundrawtransaction' and r.get('complete') is not complete:
+                        raise Violation('object/%s-complete' % method, 'complete flag %r, server said %s' % (r.get('complete'), complete))
                 if self.sent()['params'][0] != E.hex():
                     raise Violation('object/%s-sent' % method, 'transaction hex on the wire differs from the reference encoding')
             elif method == 'getrawtransaction':
@@ -341,6 +348,17 @@ class World:
                     self.reply('"%s"' % E80.hex()); r = self.call(method, p.getblockheader, b'\x06' * 32)
                     if r.serialize() != E80 or r.GetHash() != H.dsha(E80):
                         raise Violation('object/getblockheader', 'returned header differs from the served hex')
+        elif k == 'batch':
+            # a batch request (caller-numbered, sent as one JSON array) between ordinary calls: the proxy's own ids go on increasing
+            ids = op[1]
+            self.conn.replies.append(Resp(json.dumps([{'result': i, 'error': None, 'id': i} for i in ids]).encode()))
+            r = self.call('_batch', p._batch, [{'version': '1.1', 'method': 'getblockcount', 'params': [], 'id': i} for i in ids])
+            if [x.get('id') for x in r] != ids:
+                raise Violation('batch/reply', '_batch returned %r' % (r,))
+            sent_b = json.loads(self.conn.reqs[-1][2])
+            if [x.get('id') for x in sent_b] != ids:
+                raise Violation('batch/sent', 'batch request went out with other ids than the caller gave')
+            del self.conn.reqs[-1]          # caller-numbered: not part of the proxy's own id sequence
         elif k == 'calls':
             # a long run of plain calls on the same proxy: ids keep increasing (no wrap, no reset), results keep coming through
             for i in range(op[1]):
@@ -354,7 +372,11 @@ class World:
         elif k == 'error':
             method, shape, code = op[1], op[2], op[3]
             exp_code = code
-            if shape == 'dict':
+            if shape == 'dict-fraction':
+                # a code that is NOT an integer (JSON allows it): it equals no registered code, whatever it truncates to
+                body = '{"result":null,"error":{"code":%d.%s,"message":"boom"},"id":1}' % (code, '5' if code % 2 else '25')
+                exp_code = None
+            elif shape == 'dict':
                 body = '{"result":null,"error":{"code":%d,"message":"boom"},"id":1}' % code
             elif shape == 'dict+result':
                 body = '{"result":5,"error":{"code":%d,"message":"boom"},"id":1}' % code      # (a small number: results get multiplied by COIN)
@@ -393,6 +415,10 @@ class World:
                 r = fns[method]()
             except RPC.JSONRPCError as e:
                 want = registered().get(exp_code, RPC.JSONRPCError)
+                if exp_code is None:
+                    if type(e) is not RPC.JSONRPCError:
+                        raise Violation('error/class-fractional-code', '%s: a fractional error code raised %s' % (method, type(e).__name__))
+                    return self.check_ids()
                 if type(e) is not want:
                     raise Violation('error/class-%d' % exp_code, '%s: error reply %s (code %d) raised %s, registered class is %s' % (
                         method, shape, exp_code, type(e).__name__, want.__name__))
@@ -400,7 +426,7 @@ class World:
                     raise Violation('error/code', 'exception carries code %r, expected %d' % (e.error.get('code'), exp_code))
             except IndexError:
                 if (method, exp_code) not in INDEXERR:
-                    raise Violation('error/indexerror-%s-%d' % (method, exp_code), '%s translated code %d into IndexError' % (method, exp_code))
+                    raise Violation('error/indexerror-%s-%s' % (method, exp_code), '%s translated code %s into IndexError' % (method, exp_code))
             except Exception as e:
                 raise unexpected('error/%s-%s' % (method, shape), e)
             else:
@@ -444,7 +470,7 @@ hash_sinks = st.sampled_from(['getblock', 'getblockheader', 'getrawtransaction',
                               'getblockheader-verbose', 'getrawtransaction-verbose', 'gettxout-missing'])
 err_methods = st.sampled_from(['getbalance', 'getblock', 'getblockheader', 'getrawtransaction', 'gettransaction', 'getblockhash', 'sendtoaddress', 'call',
                                'getbestblockhash', 'gettxout', 'sendrawtransaction'])
-err_shapes = st.sampled_from(['dict', 'dict', 'dict', 'dict+result', 'nocode', 'nomessage', 'string', 'number', 'list', 'noresult', 'nonjson', 'empty', 'noresponse',
+err_shapes = st.sampled_from(['dict', 'dict', 'dict', 'dict-fraction', 'dict+result', 'nocode', 'nomessage', 'string', 'number', 'list', 'noresult', 'nonjson', 'empty', 'noresponse',
                               'falsy-dict', 'falsy-string', 'falsy-zero', 'falsy-list', 'falsy-false'])
 codes = st.one_of(st.sampled_from(sorted(REG)), st.sampled_from([-1, -3, -4, -6, -32601, -32700, 0, 1, -342, -343, -344, -345]), st.integers(-40, 5))
 hashes = st.one_of(gen.hash32, st.sampled_from([bytes(31) + b'\x01', b'\x01' + bytes(31), bytes(range(32))]))
@@ -460,6 +486,7 @@ s_op = st.one_of(
     st.tuples(st.just('object'), st.sampled_from(['submitblock', 'getblock', 'getblockheader']),
               st.fixed_dictionaries({'header': gen.header_model(), 'txs': st.lists(gen.tx_model(max_in=2, max_out=2, big=False), max_size=2)})).map(list),
     st.tuples(st.just('error'), err_methods, err_shapes, codes).map(list),
+    st.tuples(st.just('batch'), st.lists(st.integers(0, 50), min_size=1, max_size=4)).map(list),
     st.tuples(st.just('error'), err_methods, st.sampled_from(['dict', 'dict', 'dict+result', 'nomessage']), codes, st.sampled_from([200, 404, 500, 401, 403, 503])).map(list),
 )
 
